@@ -135,6 +135,16 @@ def main():
                 rec["id"] = rid
                 rec["fam"] = "random"
                 out.write(json.dumps(rec, separators=(",", ":")) + "\n")
+        nb = job.get("big", 0)
+        if nb:
+            rnd = random.Random(job.get("seed", 1) * 104729 + off)
+            for _ in range(nb):
+                alg, params, box = scope.big_case(rnd)
+                rec = call(alg, params, box, interp)
+                rid += 1
+                rec["id"] = rid
+                rec["fam"] = "big"
+                out.write(json.dumps(rec, separators=(",", ":")) + "\n")
         for alg, params, box in job.get("cases", []):
             rec = call(alg, params, box, interp)
             rid += 1
